@@ -298,10 +298,15 @@ extern "C" void h_entry()
         {
             const auto r0 = v[0];
             const auto r1 = v[1];
-            Elem a(r0), b(r1);
+            // unequal allocator instances only when the allocator propagates on swap (swapping unequal non-propagating allocators
+            // is undefined by the allocator requirements)
+            constexpr bool POCS = (AFLAGS & AF_POCS) != 0;
+            const int ida = ALWAYS_EQ ? 0 : 3, idb = ALWAYS_EQ ? 0 : (POCS ? 4 : 3);
+            Elem a(r0, EAlloc(ida)), b(r1, EAlloc(idb));
             const usize allocs0 = verif_alloc_count();
             swap(a, b);
             verif_assert(verif_alloc_count() == allocs0, 890);
+            verif_assert(a.get_allocator().id == (POCS ? idb : ida) && b.get_allocator().id == (POCS ? ida : idb), 801);  // C08
             check_el(a, m.e[1], 200);
             check_el(b, m.e[0], 300);
             inv<LT>(v, m, 400);
